@@ -104,9 +104,9 @@ def weight_row(i, protein):
     return [f32(f32(v / s) / bg) if k != K - 1 else 0.0 for k, v in enumerate(vals)]
 
 
-def sf_model(M, protein, cell):
-    """MEME-style discretised survival function of the uniform-background scoring matrix `cell`
-    (the definition in lightmotif::pwm::dist, range 1000), f64, same accumulation order."""
+def sf_model(M, protein, cell, background=None):
+    """MEME-style discretised survival function of the scoring matrix `cell` under the uniform background (or the
+    given per-symbol frequencies) - the definition in lightmotif::pwm::dist, range 1000, f64, same accumulation order."""
     K = len(alpha(protein))
     rows = [[cell(i, k) for k in range(K)] for i in range(M)]
     flat = [x for r in rows for x in r]
@@ -118,6 +118,8 @@ def sf_model(M, protein, cell):
     scale = math.floor(1000.0 / (large - offset))
     disc = [[int(round((x - offset) * scale)) for x in r] for r in rows]   # integer inputs: no .5 ties
     bg = [f32(1.0 / (K - 1)) if k != K - 1 else 0.0 for k in range(K)]
+    if background is not None:
+        bg = [f32(x) for x in background]
     size = M * 1000 + 1
     old = {0: 1.0}
     for i, row in enumerate(disc):
@@ -304,6 +306,29 @@ def build(spec):
         o.length, o.elements = M, [[score_cell(i, k) for k in range(K)] for i in range(M)]
         o.buffer = True
         o.category = "used" if spec.get("history") else "fresh"
+    elif cls == "ScoreDistribution" and spec.get("history"):
+        # the distribution of a REVERSE COMPLEMENT taken after the original matrix was queried (cached distribution),
+        # under a background that is not strand-symmetric: it must be the reverse complement's own survival function
+        assert not protein and spec["history"] == [["rc_after_pvalue"]]
+        a = alpha(False)
+        freqs = {"A": 0.4, "C": 0.25, "T": 0.1, "G": 0.25}
+        comp = {"A": "T", "T": "A", "C": "G", "G": "C", "N": "N"}
+        orig = lightmotif.ScoringMatrix({sym: [dist_cell(i, k) for i in range(M)] for k, sym in enumerate(a)}, background=freqs)
+        orig.pvalue(1.0)
+        _ = orig.score_distribution
+        rc = orig.reverse_complement()
+        o = Obj(cls, rc.score_distribution)
+
+        def rc_cell(i, k):
+            return dist_cell(M - 1 - i, a.index(comp[a[k]]))
+        sf = sf_model(M, False, rc_cell, background=[freqs.get(sym, 0.0) for sym in a])
+        o.buffer, o.alloc = True, len(sf) * 8
+        o.layouts = [((len(sf),), {(i,): sf[i] for i in range(len(sf))})]
+        o.view_rel = 1e-9
+        o.keep = (orig, rc)
+        o.category = "reverse complement of a queried matrix"
+        o.desc = "the %d values of the discretised survival function of the reverse complement" % len(sf)
+        return o
     elif cls == "ScoreDistribution":
         p = make_pssm(M, protein, "dist")
         o = Obj(cls, p.score_distribution)
@@ -518,7 +543,7 @@ INDEX_DESC = ("complete product: every class with __getitem__/__len__ (EncodedSe
               "state = one object, transition = one call.")
 VIEW_DESC = ("complete product: memoryview(obj) of every buffer-exporting class on freshly built objects - EncodedSequence "
              "(lengths %s x 3 arms), StripedSequence (same, no look-ahead rows yet), ScoringMatrix and ScoreDistribution "
-             "(widths %s; 0 = empty ScoringMatrix; no distribution is requested from an empty matrix), StripedScores (every length x "
+             "(widths %s; 0 = empty ScoringMatrix; no distribution is requested from an empty matrix; for DNA widths <= 8 also the distribution of a reverse complement taken after the original was queried, under a strand-asymmetric background), StripedScores (every length x "
              "width x 3 arms x {fresh sequence object, object scored before with narrower motifs (2; 2 then 5), a wider one (33), a copy}; cells of positions >= len stand for no logical element and only have to lie inside the object) - x DNA/protein; "
              "CountMatrix / WeightMatrix probed (no buffer support = nothing to check). One evaluation = one view: "
              "format/itemsize/ndim/shape/strides recorded and EVERY exposed cell compared with the logical element it stands "
@@ -608,6 +633,8 @@ def space_view_fresh(ctx, rep):
             specs.append({"cls": "ScoringMatrix", "protein": protein, "M": M})
             if M > 0:
                 specs.append({"cls": "ScoreDistribution", "protein": protein, "M": M})
+                if not protein and M <= 8:
+                    specs.append({"cls": "ScoreDistribution", "protein": False, "M": M, "history": [["rc_after_pvalue"]]})
         for L in L_:
             for M in widths(ctx):
                 for arm in ARMS:
